@@ -54,7 +54,7 @@ package revolut2
 // Well-formedness of the statement (a hypothesis of the property, assumed about what csv.Reader.Read delivers
 // and listed in the evidence): a completed date, when present, has at least the ten characters of a date -
 // the code slices it with [:10] before any check.
-//@ def wfParserR2(p *parser) bool := p != nil && p.reader != nil && p.reader.FieldsPerRecord == 10 && p.registry != nil && p.registry.accounts != nil
+//@ def wfParserR2(p *parser) bool := p != nil && p.reader != nil && p.reader.FieldsPerRecord == 10 && p.registry != nil && wfAccounts(p.registry.accounts)
 //@     && wfCommodities(p.registry.commodities) && p.registry.accounts.index != p.registry.commodities.index && wfBuilder(p.builder) && validAccount(p.account) && validAccount(p.feeAccount)
 //@     && p.balance != nil
 //
